@@ -909,14 +909,14 @@ fn big_store_orders(p: &mut ProbeReport, which: &str) {
 }
 
 /// every sequence up to `maxlen` over {add a lowest-rated record, add a highest-rated record, limit 2, limit 5,
-/// search ""} applied to a three-record store, then the empty query once more: judged as `which` requires
+/// search "", clear} applied to a three-record store, then the empty query once more: judged as `which` requires
 fn lived_in_exhaustive(p: &mut ProbeReport, which: &str, maxlen: usize) {
     let titles = ["red mug", "blue mug", "green cup", "mug rack", "tea cup", "big mug", "cup", "mugs", "a mug"];
     let mut idx: Vec<usize> = vec![];
     let mut total = 0usize;
     loop {
         let mut k = idx.len();
-        loop { if k == 0 { idx = vec![0; idx.len() + 1]; break; } k -= 1; if idx[k] + 1 < 5 { idx[k] += 1; for j in k + 1..idx.len() { idx[j] = 0; } break; } }
+        loop { if k == 0 { idx = vec![0; idx.len() + 1]; break; } k -= 1; if idx[k] + 1 < 6 { idx[k] += 1; for j in k + 1..idx.len() { idx[j] = 0; } break; } }
         if idx.len() > maxlen { break; }
         if !idx.iter().any(|a| *a <= 1) { continue; }
         total += 1;
@@ -928,10 +928,12 @@ fn lived_in_exhaustive(p: &mut ProbeReport, which: &str, maxlen: usize) {
         let mut ops: Vec<Op> = vec![Op::New, Op::Limit(limit)];
         for (id, t, rt) in &recs { ops.push(Op::Add(*id, *rt, t.clone())); }
         let (mut lo, mut hi) = (200usize, 8 * big);
+        let mut next_id = 3usize;
         for a in &idx {
             match a {
-                0 | 1 => { let rt = if *a == 0 { lo -= 10; lo } else { hi += 10; hi }; let id = recs.len() + 1; let t = titles[id % titles.len()].to_string(); add_to(&mut st, id, &t, rt); recs.push((id, t.clone(), rt)); ops.push(Op::Add(id, rt, t)); }
+                0 | 1 => { let rt = if *a == 0 { lo -= 10; lo } else { hi += 10; hi }; next_id += 1; let id = next_id; let t = titles[id % titles.len()].to_string(); add_to(&mut st, id, &t, rt); recs.push((id, t.clone(), rt)); ops.push(Op::Add(id, rt, t)); }
                 2 | 3 => { limit = if *a == 2 { 2 } else { 5 }; st.limit = limit; ops.push(Op::Limit(limit)); }
+                5 => { st.clear(); recs.clear(); ops.push(Op::Clear); }
                 _ => { let _ = search_results(&st, ""); ops.push(Op::Search(String::new())); }
             }
         }
@@ -1093,7 +1095,10 @@ fn p08(p: &mut ProbeReport, r: &mut Rng, budget: usize) {
             let mut fw: Vec<String> = v.func.iter().filter(|w| !w.is_ascii()).cloned().collect();
             fw.extend(v.func.iter().filter(|w| w.is_ascii()).cloned());
             let f = fw[(i / LANGS.len()) % fw.len()].clone();
-            let content = format!("{}{}", f, synth_word(r, a3, 3, 5));
+            // the suffix is random letters, or (every other round) an ending the language's stemmer strips, so that the
+            // content word's stem is the function word itself (`over` / `overly`, `mit` / `miten`)
+            let endings: &[&str] = match code { "en" => &["ly", "s", "ed", "ing", "es"], "de" => &["en", "e", "es", "er"], "es" => &["o", "os", "a", "as"], "fr" => &["e", "es", "s"], "pt" => &["a", "o", "ida", "os"], "ru" => &["ы", "и", "а", "ов"], _ => &["s"] };
+            let content = if (i / LANGS.len()) % 2 == 1 { format!("{}{}", f, r.pick_str(endings)) } else { format!("{}{}", f, synth_word(r, a3, 3, 5)) };
             let tf = tokenize_record(&f, &lang);
             let tc = tokenize_record(&content, &lang);
             // f is a function word because the language's table lists it (not because the tokenizer under test says so)
@@ -1899,6 +1904,19 @@ fn check_prepare(p: &mut ProbeReport, st: &Store, lang: &core::Lang, code: &str,
 }
 
 fn p18(p: &mut ProbeReport, r: &mut Rng, budget: usize) {
+    // more than 255 shared grams per record (a one-byte counter would saturate or wrap): twelve records holding the
+    // first 20 … 23 words of a 24-word text (about 16 grams per word), asked for the whole text at size 1
+    {
+        let lang = make_lang("none");
+        let words: Vec<String> = (0..24).map(|_| (0..16).map(|_| (b'a' + r.below(26) as u8) as char).collect::<String>()).collect();
+        let mut recs: Vec<(usize, String, usize)> = vec![];
+        for i in 0..12 { recs.push((i + 1, words[..20 + (i * 5) % 4].join(" "), 10 + i)); }
+        let st = Scn { lang: "none".into(), recs: recs.clone(), limit: 10 }.build();
+        let mut hist: Vec<Op> = vec![Op::New];
+        for (id, t, rt) in &recs { hist.push(Op::Add(*id, *rt, t.clone())); }
+        if !check_prepare(p, &st, &lang, "none", &recs, &words.join(" "), 1, &hist) { return; }
+        if !check_prepare(p, &st, &lang, "none", &recs, &words[..22].join(" "), 1, &hist) { return; }
+    }
     // grams that differ in one low bit next to a character beyond U+FFFF (a key packed into too few bits would merge
     // them): the record that holds both spellings shares three grams with the query, thirty fillers share two, and the
     // cap leaves room for ten
